@@ -356,19 +356,22 @@ class bpch2(bpch_base):
         tpath = os.path.join(os.path.dirname(path), 'tracerinfo.dat')
         if not os.path.exists(tpath):
             tpath = 'tracerinfo.dat'
-        self._tdata = np.recfromtxt(tpath, dtype=None, comments='#', names=[
+        self._tdata = np.genfromtxt(tpath, dtype=None, comments='#', names=[
                                     'shortname', 'fullname', 'kgpermole',
                                     'carbon', 'tracerid', 'scale', 'units'],
                                     delimiter=[9, 30, 10, 3, 9, 10, 41],
-                                    autostrip=True)
+                                    autostrip=True, encoding='bytes'
+                                    ).view(np.recarray)
 
     def _getdiaginfo(self, path):
         dpath = os.path.join(os.path.dirname(path), 'diaginfo.dat')
         if not os.path.exists(dpath):
             dpath = 'diaginfo.dat'
-        self._ddata = np.recfromtxt(dpath, dtype=None, comments='#', names=[
+        self._ddata = np.genfromtxt(dpath, dtype=None, comments='#', names=[
                                     'offset', 'category', 'comment'],
-                                    delimiter=[9, 40, 100], autostrip=True)
+                                    delimiter=[9, 40, 100],
+                                    autostrip=True, encoding='bytes'
+                                    ).view(np.recarray)
 
 # OFFSET    (I8 )  Constant to add to tracer numbers in order to distinguish
 #                  for the given diagnostic category, as stored in file
